@@ -1412,6 +1412,21 @@ def check_c07(res, ctx):
         else:
             body = gen.rbytes(r, ref.SIZES[tid])
         pl.append("pipe=%d oskip %d %s" % (r.choice([1, 2]), tid, core.hexs(body + gen.rbytes(r, r.choice([0, 3, 5000])))))
+    # value arrays of every encoding written by the library, read and skipped on such a stream;
+    # fixed-size arrays whose payload is a whole number of blocks
+    for _ in range(300 if ctx.tier == "quick" else 4000):
+        o = gen.robj(r, big=r.random() < 0.05)
+        pl.append("pipe=%d va %d %s" % (r.choice([1, 2]), r.choice([0, 1, 2, 3]), o.script()))
+    for tid, cnt in [(5, 512), (5, 1024), (3, 1536), (2, 1024), (4, 2048), (13, 256), (1, 4096), (1, 32768), (1, 65536), (5, 513)]:
+        el = gen.relem(r, tid)
+        for enc in ((1, 3) if tid == 1 else (1,)):
+            pl.append("pipe=%d va %d %d %d %s" % (r.choice([1, 2]), enc, tid, cnt,
+                                                    " ".join((el if (j % 3) else gen.relem(r, tid)).hex() or "-" for j in range(cnt))))
+    # distances at the block sizes of the drop buffer and of stdio (and one off)
+    for ln in [4095, 4096, 4097, 8191, 8192, 8193, 12288, 16384, 65536, 131072]:
+        e = gen.rbytes(r, 64) * (ln // 64) + gen.rbytes(r, ln % 64)
+        for pm in (1, 2):
+            pl.append("pipe=%d oskip %d %s" % (pm, r.choice([10, 12]), core.hexs(struct.pack("<i", ln) + e + b"\x07")))
 
     def oracle_pipe(l, h):
         base = l.split(" ", 1)[1] if l.startswith("pipe=") else l
@@ -1419,6 +1434,8 @@ def check_c07(res, ctx):
             return oracle_sub(base, h)
         if base.startswith("fsk "):
             return oracle_fsk(base, h)
+        if base.startswith("va "):
+            return oracle_va(base, h)
         if not re.match(r"rd=0@(\d+):.* sk=0@\1 live=0$", h):
             return "on a stream that cannot seek, sbdf_obj_skip does not end where sbdf_obj_read ends: " + h[:200]
         return None
